@@ -1,6 +1,6 @@
 (** C13 — weighted-sample statistics and the mixture proposal obey their definitions.
     Model: Num/Quantile.v ([wsq_idx] = weighted_sample_quantile with the argsort as an oracle,
-    [normalize_weights], [compute_ess], [wvar_rows]/[weighted_var], [gm_pdf], [rvs]).
+    [normalize_weights], [compute_ess], [wvar_rows]/[weighted_var] (normalise, then [wvar_core]), [gm_pdf], [rvs]).
     Proofs: Proofs/C13_Quantile.v, C13_Stats.v, C13_Rvs.v.  This file only states the theorems. *)
 From Coq Require Import List ZArith QArith Qabs Bool Arith Permutation Sorted.
 From Elfi Require Import Num.Quantile Proofs.C13_Quantile Proofs.C13_Stats Proofs.C13_Rvs.
@@ -105,6 +105,46 @@ Theorem C13_ess :
 Proof. exact compute_ess_spec. Qed.
 Print Assumptions C13_ess.
 
+(** The effective sample size does not depend on the common scale of the weights: for every
+    c > 0, [compute_ess (c * w)] is defined whenever [compute_ess w] is, with the same value.
+    (The model's weight vectors are numeric values only, so neither the magnitude nor the
+    dtype / container in which the caller holds them can influence the result.) *)
+Theorem C13_ess_scale_invariant :
+  forall c w e, 0 < c -> compute_ess w = Some e ->
+    exists e', compute_ess (map (Qmult c) w) = Some e' /\ e == e'.
+Proof. exact compute_ess_scale_invariant. Qed.
+Print Assumptions C13_ess_scale_invariant.
+
+Theorem C13_ess_spec_scale_invariant :
+  forall c w, ~ c == 0 -> spec_ess (map (Qmult c) w) == spec_ess w.
+Proof. exact spec_ess_scale_invariant. Qed.
+Print Assumptions C13_ess_spec_scale_invariant.
+
+Theorem C13_normalize_weights_scale_invariant :
+  forall c w nw, 0 < c -> normalize_weights w = Some nw ->
+    exists nw', normalize_weights (map (Qmult c) w) = Some nw' /\ Forall2 Qeq nw nw'.
+Proof. exact normalize_weights_scale_invariant. Qed.
+Print Assumptions C13_normalize_weights_scale_invariant.
+
+(** decidable statement over several calls on the same numeric weights (different
+    representations, different exactly representable common factors): sound for the definitions
+    AT THE WEIGHTS PASSED, and satisfied by the model for every list of positive factors *)
+Theorem C13_weights_ok_sound :
+  forall w runs r,
+    wf_stat_w w = true -> ok_weights w runs = true -> In r runs -> 0 < w_scale r ->
+    exists nw e, w_norm r = Some nw /\ w_ess r = Some e /\
+      Qabs (1 - qsum nw) <= w_tol r * (1 + Qabs 1) /\ Forall (Qle 0) nw /\
+      Qabs (spec_ess (map (Qmult (w_scale r)) w) - e)
+        <= w_tol r * (1 + Qabs (spec_ess (map (Qmult (w_scale r)) w))).
+Proof. exact weights_ok_sound. Qed.
+Print Assumptions C13_weights_ok_sound.
+
+Theorem C13_weights_model_ok :
+  forall w (l : list (Q * Q)), Forall (fun st => 0 <= snd st) l ->
+    ok_weights w (map (model_wrun w) l) = true.
+Proof. exact weights_model_ok. Qed.
+Print Assumptions C13_weights_model_ok.
+
 (** * weighted_var *)
 (** equals the reliability-weights unbiased estimator
     sum v_i (x_i - mu)^2 / (1 - sum v_i^2), v_i = w_i / sum w, mu = sum v_i x_i *)
@@ -132,6 +172,15 @@ Theorem C13_var_scale_invariant :
     wvar_rows (map (fun p => (fst p, c * snd p)) xw) = Some v' -> v == v'.
 Proof. exact weighted_var_scale_invariant. Qed.
 Print Assumptions C13_var_scale_invariant.
+
+(** ... and rescaling cannot make a defined variance undefined (the code normalises the weights in
+    floating point before squaring them, so neither the magnitude nor the dtype of the caller's
+    weights enters) *)
+Theorem C13_var_scale_defined :
+  forall xw c v, ~ c == 0 -> wvar_rows xw = Some v ->
+    exists v', wvar_rows (map (fun p => (fst p, c * snd p)) xw) = Some v' /\ v == v'.
+Proof. exact weighted_var_scale_defined. Qed.
+Print Assumptions C13_var_scale_defined.
 
 (** decidable statements for normalize/ess/var: sound, and satisfied by the model *)
 Theorem C13_stat_ok_sound :
@@ -180,6 +229,13 @@ Proof.
   exists p. split; [exact Hp | now apply (gm_pdf_nonneg dens ws)].
 Qed.
 Print Assumptions C13_gm_pdf_defined_nonneg.
+
+(** the density does not depend on the common scale of the component weights *)
+Theorem C13_gm_pdf_scale_invariant :
+  forall c dens w p, 0 < c -> gm_pdf dens (Some w) = Some p ->
+    exists p', gm_pdf dens (Some (map (Qmult c) w)) = Some p' /\ p == p'.
+Proof. exact gm_pdf_scale_invariant. Qed.
+Print Assumptions C13_gm_pdf_scale_invariant.
 
 (** logpdf = log(pdf) for every function [ln] *)
 Theorem C13_gm_logpdf :
@@ -234,6 +290,16 @@ Example C13_example_stats :
   /\ weighted_var [3; 1; 2; 2] (Some [1; 1; 0; 2]) = Some (4 # 5)
   /\ weighted_var [3; 1; 2; 2] None = Some (2 # 3)
   /\ gm_pdf [1 # 2; 1 # 4] (Some [1; 3]) = Some (5 # 16).
+Proof. vm_compute. repeat split; reflexivity. Qed.
+
+(** the same weights at the scales 2^-1000, 1 and 2^1000: equal ESS, and the decidable statement
+    accepts the model's three answers (non-vacuity of the scale-invariance / model_ok theorems) *)
+Example C13_example_ess_scales :
+  let w := [3; 0; 1; 4] in
+  let lo := inject_Z 1 / inject_Z (2 ^ 1000) in let hi := inject_Z (2 ^ 1000) in
+  map (fun c => compute_ess (map (Qmult c) w)) [lo; 1; hi] = [Some (32 # 13); Some (32 # 13); Some (32 # 13)]
+  /\ wf_stat_w w = true
+  /\ ok_weights w (map (model_wrun w) [(lo, 0); (1, 0); (hi, 1 # 1000)]) = true.
 Proof. vm_compute. repeat split; reflexivity. Qed.
 
 (** an accept loop that needs four trials (valid = "< 10") *)
